@@ -24,6 +24,10 @@ PDict(m)   == [k |-> "map", m |-> m]
 PNone      == [k |-> "none"]
 PObj(c)    == [k |-> "obj", c |-> c]             \* a valid instance of generated class c
 PMemview   == [k |-> "memoryview"]
+\* values that have a length but cannot be sliced or indexed: a set (of n integers) and a dict with n integer keys;
+\* no Stone type accepts them, however many entries they have
+PSet(n)    == [k |-> "set", n |-> n]
+PIntDict(n) == [k |-> "intdict", n |-> n]
 NotSet     == [k |-> "notset"]
 
 \* --------------------------------------------------------- Accepts / Norm
